@@ -6,7 +6,7 @@
 #include "cfg.h"
 #include "model.h"
 using u64 = uint64_t;
-using Mo = bm::M<NBITS>;
+using Mo = bsm::M<NBITS>;
 extern "C" {
 u64 k_sizeof(); u64 k_size(void const*);
 void k_new(void*); void k_new_ull(void*, unsigned long long); void k_copy(void*, void const*); void k_assign(void*, void const*);
@@ -53,26 +53,37 @@ static bool pad_zero(uint8_t const* p) { return (rd_word(p, NWORDS - 1) & WT(~LA
 // every public observer against the model, and the representation invariant
 static void observe(uint8_t* p, Mo const& m, bool proxy = false)
 {
-    vf_assert(pad_zero(o.p), "unused high bits of the last word are zero after the operation");
+    vf_assert(pad_zero(p), "unused high bits of the last word are zero after the operation");
+    // count() is compared with the number of positions at which test() answers true; every test(i) is itself compared with the
+    // model in the same query, so this is count() == model.count(). The sum is formed word by word only to give the solver an
+    // adder network of the same shape as the popcount loops (addition is associative: the value is the same).
+    u64 cnt = 0, c = 0;
     for (unsigned i = 0; i < NBITS; i++) {
-        bool e = o.m.b[i];
-        vf_assert(k_test(o.p, i) == e, "test(i) == std");
-        vf_assert(k_idx(o.p, i) == e, "operator[](i) const == std");
+        bool e = m.b[i];
+        bool t = k_test(p, i);
+        vf_assert(t == e, "test(i) == std");
+        vf_assert(k_idx(p, i) == e, "operator[](i) const == std");
         if (proxy) {
-            vf_assert(k_ref_get(o.p, i) == e, "bool(operator[](i)) == std");
-            vf_assert(k_ref_not(o.p, i) == !e, "~operator[](i) == std");
+            vf_assert(k_ref_get(p, i) == e, "bool(operator[](i)) == std");
+            vf_assert(k_ref_not(p, i) == !e, "~operator[](i) == std");
         }
+        c += t ? 1u : 0u;
+        if (i % WBITS == WBITS - 1 || i == NBITS - 1) { cnt = c + cnt; c = 0; }
     }
-    vf_assert(k_count(o.p) == o.m.count(), "count() == std");
-    vf_assert(k_all(o.p) == o.m.all(), "all() == std");
-    vf_assert(k_any(o.p) == o.m.any(), "any() == std");
-    vf_assert(k_none(o.p) == !o.m.any(), "none() == std");
-    vf_assert(k_size(o.p) == NBITS, "size() == NBITS");
+    vf_assert(k_count(p) == cnt, "count() == std");
+    vf_assert(k_all(p) == m.all(), "all() == std");
+    vf_assert(k_any(p) == m.any(), "any() == std");
+    vf_assert(k_none(p) == !m.any(), "none() == std");
+    vf_assert(k_size(p) == NBITS, "size() == N");
 #if WSEL == 0 && NBITS <= 64
-    vf_assert(k_to_ullong(o.p) == o.m.to_ull(), "to_ullong() == std");
-    vf_assert(k_to_ulong(o.p) == o.m.to_ull(), "to_ulong() == std");
+    vf_assert(k_to_ullong(p) == m.to_ull(), "to_ullong() == std");
+    vf_assert(k_to_ulong(p) == m.to_ull(), "to_ulong() == std");
 #endif
 }
+// OBJ(a): an object `a` in an arbitrary invariant-satisfying state with its model `am`
+#define OBJ(a) Mo a##m; uint8_t* a = mk(a##m)
+// NEW(a): an exact-size block of symbolic bytes `a` for a constructor kernel, and an uninitialised model `am`
+#define NEW(a) Mo a##m; uint8_t* a = raw()
 
 // ---------------------------------------------------------------------------------------------------------------------
 // observers
@@ -80,208 +91,196 @@ static void observe(uint8_t* p, Mo const& m, bool proxy = false)
 Q q_observe()
 {
     vf_assert(k_sizeof() == OBJSZ, "object is exactly its storage words");
-    Obj o; mk(o);
-    observe(o, true);
+    OBJ(o);
+    observe(o, om, true);
     u64 pos = nd_pos(); // symbolic position as well (the loop above uses constant positions)
-    bool e = o.m.test(pos);
-    vf_assert(k_test(o.p, pos) == e, "test(pos) == std");
-    vf_assert(k_idx(o.p, pos) == e, "operator[](pos) const == std");
-    vf_assert(k_ref_get(o.p, pos) == e, "bool(operator[](pos)) == std");
-    vf_assert(k_ref_not(o.p, pos) == !e, "~operator[](pos) == std");
-    if (e) vf_witness("bit set"); else vf_witness("bit clear");
-    if (k_all(o.p)) vf_witness("all");
-    if (k_none(o.p)) vf_witness("none");
+    bool e = om.test(pos);
+    vf_assert(k_test(o, pos) == e, "test(pos) == std");
+    vf_assert(k_idx(o, pos) == e, "operator[](pos) const == std");
+    vf_assert(k_ref_get(o, pos) == e, "bool(operator[](pos)) == std");
+    vf_assert(k_ref_not(o, pos) == !e, "~operator[](pos) == std");
+    if (!e && k_any(o)) vf_witness("bit clear, others set");
+    if (k_all(o)) vf_witness("all");
 }
 // the observers that are defined bit by bit must not look at the unused high bits at all (padding bits symbolic here)
 Q q_observe_anypad()
 {
-    Obj o; mk(o, true);
+    Mo om; uint8_t* o = mk(om, true);
     u64 pos = nd_pos();
     for (unsigned i = 0; i < NBITS; i++) {
-        bool e = o.m.b[i];
-        vf_assert(k_test(o.p, i) == e, "test(i) independent of unused bits");
-        vf_assert(k_idx(o.p, i) == e, "operator[](i) const independent of unused bits");
-        vf_assert(k_ref_get(o.p, i) == e, "bool(operator[](i)) independent of unused bits");
+        bool e = om.b[i];
+        vf_assert(k_test(o, i) == e, "test(i) independent of unused bits");
+        vf_assert(k_idx(o, i) == e, "operator[](i) const independent of unused bits");
+        vf_assert(k_ref_get(o, i) == e, "bool(operator[](i)) independent of unused bits");
     }
-    vf_assert(k_test(o.p, pos) == o.m.test(pos), "test(pos) independent of unused bits");
+    vf_assert(k_test(o, pos) == om.test(pos), "test(pos) independent of unused bits");
 #if WSEL == 0 && NBITS <= 64
-    vf_assert(k_to_ullong(o.p) == o.m.to_ull(), "to_ullong() independent of unused bits");
-    vf_assert(k_to_ulong(o.p) == o.m.to_ull(), "to_ulong() independent of unused bits");
+    vf_assert(k_to_ullong(o) == om.to_ull(), "to_ullong() independent of unused bits");
+    vf_assert(k_to_ulong(o) == om.to_ull(), "to_ulong() independent of unused bits");
 #endif
-    if (PADBITS && !pad_zero(o.p)) vf_witness("unused bits set");
+    if (PADBITS && !pad_zero(o)) vf_witness("unused bits set");
 }
 Q q_eq()
 {
-    Obj a, b; mk(a); mk(b);
-    bool e = a.m.eq(b.m);
-    vf_assert(k_eq(a.p, b.p) == e, "operator== == std");
-    vf_assert(k_ne(a.p, b.p) == !e, "operator!= == std");
-    vf_assert(k_eq(a.p, a.p), "a == a");
-    vf_assert(!k_ne(b.p, b.p), "!(b != b)");
-    if (e) vf_witness("equal"); else vf_witness("different");
+    OBJ(a); OBJ(b);
+    bool e = am.eq(bm);
+    vf_assert(k_eq(a, b) == e, "operator== == std");
+    vf_assert(k_ne(a, b) == !e, "operator!= == std");
+    vf_assert(k_eq(a, a), "a == a");
+    vf_assert(!k_ne(b, b), "!(b != b)");
+    if (e) vf_witness("equal");
 }
 // ---------------------------------------------------------------------------------------------------------------------
 // construction, copy
 // ---------------------------------------------------------------------------------------------------------------------
-Q q_ctor_default()
-{
-    Obj o; o.p = raw(); k_new(o.p); o.m.reset_all();
-    observe(o);
-}
+Q q_ctor_default() { NEW(o); k_new(o); om.reset_all(); observe(o, om); }
 Q q_ctor_ull()
 {
     unsigned long long v = vf_nd_u64();
-    Obj o; o.p = raw(); k_new_ull(o.p, v); o.m.from_ull(v);
-    observe(o);
+    NEW(o); k_new_ull(o, v); om.from_ull(v);
+    observe(o, om);
     if (NBITS < 64 && (v >> (NBITS < 64 ? NBITS : 0)) != 0) vf_witness("value wider than the bitset");
 }
 Q q_copy()
 {
-    Obj a; mk(a);
-    Obj d; d.p = raw(); k_copy(d.p, a.p); d.m = a.m;
-    observe(d); observe(a);
-    vf_assert(k_eq(d.p, a.p), "copy == original");
-    Obj c; mk(c); k_assign(c.p, a.p); c.m = a.m;
-    observe(c);
-    k_assign(a.p, a.p);
-    observe(a);
+    OBJ(a);
+    NEW(d); k_copy(d, a); dm = am;
+    observe(d, dm); observe(a, am);
+    vf_assert(k_eq(d, a), "copy == original");
+}
+Q q_assign()
+{
+    OBJ(a); OBJ(c);
+    k_assign(c, a); cm = am;
+    observe(c, cm); observe(a, am);
+    k_assign(a, a);
+    observe(a, am);
 }
 // ---------------------------------------------------------------------------------------------------------------------
 // whole-set operations
 // ---------------------------------------------------------------------------------------------------------------------
-Q q_set_all() { Obj o; mk(o); vf_assert(k_set_all(o.p), "set() returns *this"); o.m.set_all(); observe(o); }
-Q q_reset_all() { Obj o; mk(o); vf_assert(k_reset_all(o.p), "reset() returns *this"); o.m.reset_all(); observe(o); }
-Q q_flip_all() { Obj o; mk(o); vf_assert(k_flip_all(o.p), "flip() returns *this"); o.m.flip_all(); observe(o); }
+Q q_set_all() { OBJ(o); vf_assert(k_set_all(o), "set() returns *this"); om.set_all(); observe(o, om); }
+Q q_reset_all() { OBJ(o); vf_assert(k_reset_all(o), "reset() returns *this"); om.reset_all(); observe(o, om); }
+Q q_flip_all() { OBJ(o); vf_assert(k_flip_all(o), "flip() returns *this"); om.flip_all(); observe(o, om); }
 // ---------------------------------------------------------------------------------------------------------------------
-// single-bit operations, position symbolic in [0, NBITS)
+// single-bit operations, position symbolic in [0, N)
 // ---------------------------------------------------------------------------------------------------------------------
-Q q_set() { u64 pos = nd_pos(); bool v = nd_bool(); Obj o; mk(o); vf_assert(k_set(o.p, pos, v), "set(pos, v) returns *this"); o.m.set(pos, v); observe(o); }
-Q q_set_dflt() { u64 pos = nd_pos(); Obj o; mk(o); vf_assert(k_set_dflt(o.p, pos), "set(pos) returns *this"); o.m.set(pos, true); observe(o); }
-Q q_reset() { u64 pos = nd_pos(); Obj o; mk(o); vf_assert(k_reset(o.p, pos), "reset(pos) returns *this"); o.m.set(pos, false); observe(o); }
-Q q_flip() { u64 pos = nd_pos(); Obj o; mk(o); vf_assert(k_flip(o.p, pos), "flip(pos) returns *this"); o.m.flip(pos); observe(o); }
+Q q_set() { u64 pos = nd_pos(); bool v = nd_bool(); OBJ(o); vf_assert(k_set(o, pos, v), "set(pos, v) returns *this"); om.set(pos, v); observe(o, om); }
+Q q_set_dflt() { u64 pos = nd_pos(); OBJ(o); vf_assert(k_set_dflt(o, pos), "set(pos) returns *this"); om.set(pos, true); observe(o, om); }
+Q q_reset() { u64 pos = nd_pos(); OBJ(o); vf_assert(k_reset(o, pos), "reset(pos) returns *this"); om.set(pos, false); observe(o, om); }
+Q q_flip() { u64 pos = nd_pos(); OBJ(o); vf_assert(k_flip(o, pos), "flip(pos) returns *this"); om.flip(pos); observe(o, om); }
 // ---------------------------------------------------------------------------------------------------------------------
 // proxy reference
 // ---------------------------------------------------------------------------------------------------------------------
-Q q_ref_set()
+Q q_ref_set() { u64 pos = nd_pos(); bool v = nd_bool(); OBJ(o); k_ref_set(o, pos, v); om.set(pos, v); observe(o, om); }
+Q q_ref_set_chain()
 {
-    u64 pos = nd_pos(); bool v = nd_bool(); Obj o; mk(o);
-    k_ref_set(o.p, pos, v); o.m.set(pos, v); observe(o);
-    u64 p2 = nd_pos(); bool v2 = nd_bool();
-    vf_assert(k_ref_set_chain(o.p, p2, v2) == v2, "(b[pos] = v) reads back v");
-    o.m.set(p2, v2); observe(o);
+    u64 pos = nd_pos(); bool v = nd_bool(); OBJ(o);
+    vf_assert(k_ref_set_chain(o, pos, v) == v, "(b[pos] = v) reads back v");
+    om.set(pos, v); observe(o, om);
 }
-Q q_ref_flip()
+Q q_ref_flip() { u64 pos = nd_pos(); OBJ(o); k_ref_flip(o, pos); om.flip(pos); observe(o, om); }
+Q q_ref_flip_chain()
 {
-    u64 pos = nd_pos(); Obj o; mk(o);
-    k_ref_flip(o.p, pos); o.m.flip(pos); observe(o);
-    u64 p2 = nd_pos();
-    bool e = !o.m.test(p2);
-    vf_assert(k_ref_flip_chain(o.p, p2) == e, "b[pos].flip() reads back the flipped bit");
-    o.m.flip(p2); observe(o);
+    u64 pos = nd_pos(); OBJ(o);
+    bool e = !om.test(pos);
+    vf_assert(k_ref_flip_chain(o, pos) == e, "b[pos].flip() reads back the flipped bit");
+    om.flip(pos); observe(o, om);
 }
 // b[i] = b[j] inside one bitset (i == j included)
 Q q_ref_set_ref_self()
 {
-    u64 i = nd_pos(), j = nd_pos(); Obj o; mk(o);
-    k_ref_set_ref(o.p, i, o.p, j); o.m.set(i, o.m.test(j)); observe(o);
+    u64 i = nd_pos(), j = nd_pos(); OBJ(o);
+    k_ref_set_ref(o, i, o, j); om.set(i, om.test(j)); observe(o, om);
     if (i == j) vf_witness("same bit");
 }
 // b[i] = c[j] across two bitsets
 Q q_ref_set_ref_other()
 {
-    u64 i = nd_pos(), j = nd_pos(); Obj o, c; mk(o); mk(c);
-    k_ref_set_ref(o.p, i, c.p, j); o.m.set(i, c.m.test(j)); observe(o); observe(c);
+    u64 i = nd_pos(), j = nd_pos(); OBJ(o); OBJ(c);
+    k_ref_set_ref(o, i, c, j); om.set(i, cm.test(j)); observe(o, om); observe(c, cm);
 }
 // ---------------------------------------------------------------------------------------------------------------------
 // logic operators
 // ---------------------------------------------------------------------------------------------------------------------
-Q q_and_eq() { Obj a, b; mk(a); mk(b); vf_assert(k_and_eq(a.p, b.p), "&= returns *this"); a.m.and_eq_(b.m); observe(a); observe(b); }
-Q q_or_eq() { Obj a, b; mk(a); mk(b); vf_assert(k_or_eq(a.p, b.p), "|= returns *this"); a.m.or_eq_(b.m); observe(a); observe(b); }
-Q q_xor_eq() { Obj a, b; mk(a); mk(b); vf_assert(k_xor_eq(a.p, b.p), "^= returns *this"); a.m.xor_eq_(b.m); observe(a); observe(b); }
-Q q_logic_self()
-{
-    Obj a; mk(a);
-    k_and_eq(a.p, a.p); observe(a);
-    k_or_eq(a.p, a.p); observe(a);
-    k_xor_eq(a.p, a.p); a.m.reset_all(); observe(a);
-}
-Q q_binops()
-{
-    Obj a, b; mk(a); mk(b);
-    Obj d; d.p = raw(); k_and(d.p, a.p, b.p); d.m = a.m; d.m.and_eq_(b.m); observe(d);
-    Obj e; e.p = raw(); k_or(e.p, a.p, b.p); e.m = a.m; e.m.or_eq_(b.m); observe(e);
-    Obj f; f.p = raw(); k_xor(f.p, a.p, b.p); f.m = a.m; f.m.xor_eq_(b.m); observe(f);
-    observe(a); observe(b);
-}
+Q q_and_eq() { OBJ(a); OBJ(b); vf_assert(k_and_eq(a, b), "&= returns *this"); am.and_eq_(bm); observe(a, am); observe(b, bm); }
+Q q_or_eq() { OBJ(a); OBJ(b); vf_assert(k_or_eq(a, b), "|= returns *this"); am.or_eq_(bm); observe(a, am); observe(b, bm); }
+Q q_xor_eq() { OBJ(a); OBJ(b); vf_assert(k_xor_eq(a, b), "^= returns *this"); am.xor_eq_(bm); observe(a, am); observe(b, bm); }
+Q q_and_eq_self() { OBJ(a); k_and_eq(a, a); observe(a, am); }
+Q q_or_eq_self() { OBJ(a); k_or_eq(a, a); observe(a, am); }
+Q q_xor_eq_self() { OBJ(a); k_xor_eq(a, a); am.reset_all(); observe(a, am); }
+Q q_and() { OBJ(a); OBJ(b); NEW(d); k_and(d, a, b); dm = am; dm.and_eq_(bm); observe(d, dm); observe(a, am); observe(b, bm); }
+Q q_or() { OBJ(a); OBJ(b); NEW(d); k_or(d, a, b); dm = am; dm.or_eq_(bm); observe(d, dm); observe(a, am); observe(b, bm); }
+Q q_xor() { OBJ(a); OBJ(b); NEW(d); k_xor(d, a, b); dm = am; dm.xor_eq_(bm); observe(d, dm); observe(a, am); observe(b, bm); }
 // ---------------------------------------------------------------------------------------------------------------------
 // a short history through the public interface only: no assumption about the representation at all
 // ---------------------------------------------------------------------------------------------------------------------
+static __attribute__((noinline)) void hist_step(uint8_t* o, Mo& om, uint8_t* c, Mo const& cm, uint8_t* tmp, unsigned op, u64 pos, bool val)
+{
+    switch (op) {
+    case 0: k_set_all(o); om.set_all(); break;
+    case 1: k_set(o, pos, val); om.set(pos, val); break;
+    case 2: k_reset_all(o); om.reset_all(); break;
+    case 3: k_reset(o, pos); om.set(pos, false); break;
+    case 4: k_flip_all(o); om.flip_all(); break;
+    case 5: k_flip(o, pos); om.flip(pos); break;
+    case 6: k_ref_set(o, pos, val); om.set(pos, val); break;
+    case 7: k_ref_flip(o, pos); om.flip(pos); break;
+    case 8: k_and_eq(o, c); om.and_eq_(cm); break;
+    case 9: k_or_eq(o, c); om.or_eq_(cm); break;
+    case 10: k_xor_eq(o, c); om.xor_eq_(cm); break;
+#if WSEL == 0
+    default: k_not(tmp, o); k_assign(o, tmp); om.flip_all(); break;
+#endif
+    }
+}
 Q q_hist()
 {
     unsigned long long v = vf_nd_u64(), v2 = vf_nd_u64();
-    Obj o; o.p = raw(); k_new_ull(o.p, v); o.m.from_ull(v);
-    Obj c; c.p = raw(); k_new_ull(c.p, v2); c.m.from_ull(v2);
-    if (nd_bool()) { k_flip_all(c.p); c.m.flip_all(); } // so that bits >= 64 of the operand are not always zero
+    NEW(o); k_new_ull(o, v); om.from_ull(v);
+    NEW(c); k_new_ull(c, v2); cm.from_ull(v2);
+    if (nd_bool()) { k_flip_all(c); cm.flip_all(); } // so that bits >= 64 of the operand are not always zero
     uint8_t* tmp = raw();
     for (unsigned s = 0; s < KH; s++) {
         unsigned op = vf_nd_u8(); u64 pos = nd_pos(); bool val = nd_bool();
         vf_assume(op < (WSEL == 0 ? 12 : 11));
-        switch (op) {
-        case 0: k_set_all(o.p); o.m.set_all(); break;
-        case 1: k_set(o.p, pos, val); o.m.set(pos, val); break;
-        case 2: k_reset_all(o.p); o.m.reset_all(); break;
-        case 3: k_reset(o.p, pos); o.m.set(pos, false); break;
-        case 4: k_flip_all(o.p); o.m.flip_all(); break;
-        case 5: k_flip(o.p, pos); o.m.flip(pos); break;
-        case 6: k_ref_set(o.p, pos, val); o.m.set(pos, val); break;
-        case 7: k_ref_flip(o.p, pos); o.m.flip(pos); break;
-        case 8: k_and_eq(o.p, c.p); o.m.and_eq_(c.m); break;
-        case 9: k_or_eq(o.p, c.p); o.m.or_eq_(c.m); break;
-        case 10: k_xor_eq(o.p, c.p); o.m.xor_eq_(c.m); break;
-#if WSEL == 0
-        default: k_not(tmp, o.p); k_assign(o.p, tmp); o.m.flip_all(); break;
-#endif
-        }
+        hist_step(o, om, c, cm, tmp, op, pos, val);
     }
-    observe(o);
-    Obj d; d.p = raw(); k_copy(d.p, o.p);
-    vf_assert(k_eq(d.p, o.p), "copy of the result == result");
+    observe(o, om);
+    NEW(d); k_copy(d, o);
+    vf_assert(k_eq(d, o), "copy of the result == result");
 }
 #if WSEL == 0
 // ---------------------------------------------------------------------------------------------------------------------
 // etl::bitset only: operator~, to_string, string constructors
 // ---------------------------------------------------------------------------------------------------------------------
-Q q_not()
-{
-    Obj a; mk(a);
-    Obj d; d.p = raw(); k_not(d.p, a.p); d.m = a.m; d.m.flip_all(); observe(d); observe(a);
-}
+Q q_not() { OBJ(a); NEW(d); k_not(d, a); dm = am; dm.flip_all(); observe(d, dm); observe(a, am); }
 Q q_to_string()
 {
-    Obj a; mk(a); CH zero = nd_ch(), one = nd_ch();
+    OBJ(a); CH zero = nd_ch(), one = nd_ch();
     CH* out = (CH*)vf_alloc(NBITS * sizeof(CH)); CH* term = (CH*)vf_alloc(sizeof(CH));
-    CH exp[NBITS]; a.m.to_str(exp, zero, one);
-    vf_assert(k_to_string(a.p, out, zero, one, term) == NBITS, "to_string().size() == NBITS");
+    CH exp[NBITS]; am.to_str(exp, zero, one);
+    vf_assert(k_to_string(a, out, zero, one, term) == NBITS, "to_string().size() == N");
     for (unsigned j = 0; j < NBITS; j++) vf_assert(out[j] == exp[j], "to_string(zero, one) characters == std");
     vf_assert(*term == CH(0), "to_string() is NUL-terminated");
-    observe(a);
+    observe(a, am);
 }
 // unused bits symbolic: to_string must not depend on them
 Q q_to_string_anypad()
 {
-    Obj a; mk(a, true); CH zero = nd_ch(), one = nd_ch();
+    Mo am; uint8_t* a = mk(am, true); CH zero = nd_ch(), one = nd_ch();
     CH* out = (CH*)vf_alloc(NBITS * sizeof(CH)); CH* term = (CH*)vf_alloc(sizeof(CH));
-    CH exp[NBITS]; a.m.to_str(exp, zero, one);
-    vf_assert(k_to_string(a.p, out, zero, one, term) == NBITS, "to_string().size() == NBITS");
+    CH exp[NBITS]; am.to_str(exp, zero, one);
+    vf_assert(k_to_string(a, out, zero, one, term) == NBITS, "to_string().size() == N");
     for (unsigned j = 0; j < NBITS; j++) vf_assert(out[j] == exp[j], "to_string characters independent of unused bits");
 }
     #if CH_IS_CHAR
 Q q_to_string_dflt()
 {
-    Obj a; mk(a);
+    OBJ(a);
     CH* out = (CH*)vf_alloc(NBITS * sizeof(CH));
-    CH exp[NBITS]; a.m.to_str(exp, '0', '1');
-    vf_assert(k_to_string_dflt(a.p, out) == NBITS, "to_string().size() == NBITS");
+    CH exp[NBITS]; am.to_str(exp, '0', '1');
+    vf_assert(k_to_string_dflt(a, out) == NBITS, "to_string().size() == N");
     for (unsigned j = 0; j < NBITS; j++) vf_assert(out[j] == exp[j], "to_string() characters == std");
 }
     #endif
@@ -290,50 +289,50 @@ static CH* sym(u64 n) { CH* p = (CH*)vf_alloc(n * sizeof(CH)); for (u64 i = 0; i
 // C string: block of n + 1, the n characters non-zero, terminator forced
 static CH* symz(u64 n) { CH* p = (CH*)vf_alloc((n + 1) * sizeof(CH)); for (u64 i = 0; i < n; i++) { p[i] = nd_ch(); vf_assume(p[i] != CH(0)); } p[n] = CH(0); return p; }
 static u64 rlen_of(u64 sn, u64 pos, u64 n) { return n < sn - pos ? n : sn - pos; }
-static bool s_valid(CH const* s, u64 sn, u64 pos, u64 n, CH zero, CH one) { return bm::str_valid<CH, SLEN>(s, sn, pos, n, zero, one, NBITS); }
-static bool s_nonpal(CH const* s, u64 sn, u64 pos, u64 n, CH zero) { return bm::str_nonpal<CH, SLEN>(s, sn, pos, rlen_of(sn, pos, n), zero); }
+static bool s_valid(CH const* s, u64 sn, u64 pos, u64 n, CH zero, CH one) { return bsm::str_valid<CH, SLEN>(s, sn, pos, n, zero, one, NBITS); }
+static bool s_nonpal(CH const* s, u64 sn, u64 pos, u64 n, CH zero) { return bsm::str_nonpal<CH, SLEN>(s, sn, pos, rlen_of(sn, pos, n), zero); }
 // Preconditions shared by the string constructors: pos <= size (std throws out_of_range otherwise) and every character
 // the constructor uses is zero or one (std throws invalid_argument otherwise). Known-finding regions are stated here.
+// C02 runs (VF_NO_FUNCTIONAL) are about valid use in tetl's own terms: TETL_PRECONDITION(len <= size()) is assumed there.
+    #ifdef VF_NO_FUNCTIONAL
+        #define STR_C02(sn, pos, n) vf_assume(rlen_of(sn, pos, n) <= NBITS)
+    #else
+        #define STR_C02(sn, pos, n) ((void)0)
+    #endif
     #define STR_PRE(s, sn, pos, n, zero, one)                                                                          \
         vf_assume((pos) <= (sn));                                                                                      \
-        vf_assume(s_valid(s, sn, pos, n, zero, one));                                                     \
-        VF_KNOWN(C17_str_ctor_longer_than_bits, rlen_of(sn, pos, n) > NBITS);                                              \
+        vf_assume(s_valid(s, sn, pos, n, zero, one));                                                                  \
+        STR_C02(sn, pos, n);                                                                                           \
+        VF_KNOWN(C17_str_ctor_longer_than_bits, rlen_of(sn, pos, n) > NBITS);                                          \
         VF_KNOWN(C17_str_ctor_bit_order, rlen_of(sn, pos, n) <= NBITS && s_nonpal(s, sn, pos, n, zero))
-static void str_witness(u64 sn, u64 pos, u64 n, CH zero, CH one)
-{
-    u64 r = rlen_of(sn, pos, n);
-    if (r == sn) vf_witness("whole string used");
-    if (SLEN > 0 && r < sn) vf_witness("part of the string used");
-    (void)zero; (void)one;
-}
 Q q_ctor_sv()
 {
     CH* s = sym(SLEN); u64 pos = vf_nd_u64(), n = vf_nd_u64(); CH zero = nd_ch(), one = nd_ch();
     STR_PRE(s, SLEN, pos, n, zero, one);
-    Obj o; o.p = raw(); k_new_sv(o.p, s, SLEN, pos, n, zero, one); o.m.from_str<CH, SLEN>(s, SLEN, pos, n, zero, one);
-    observe(o); str_witness(SLEN, pos, n, zero, one);
-    if (zero == one) vf_witness("zero == one");
+    NEW(o); k_new_sv(o, s, SLEN, pos, n, zero, one); om.from_str<CH, SLEN>(s, SLEN, pos, n, zero, one);
+    observe(o, om);
+    if (SLEN > 1 && pos > 0 && rlen_of(SLEN, pos, n) < SLEN - pos && rlen_of(SLEN, pos, n) > 0) vf_witness("inner part of the string used");
 }
 Q q_ctor_sv_pn()
 {
     CH* s = sym(SLEN); u64 pos = vf_nd_u64(), n = vf_nd_u64();
     STR_PRE(s, SLEN, pos, n, CH('0'), CH('1'));
-    Obj o; o.p = raw(); k_new_sv_pn(o.p, s, SLEN, pos, n); o.m.from_str<CH, SLEN>(s, SLEN, pos, n, CH('0'), CH('1'));
-    observe(o); str_witness(SLEN, pos, n, CH('0'), CH('1'));
+    NEW(o); k_new_sv_pn(o, s, SLEN, pos, n); om.from_str<CH, SLEN>(s, SLEN, pos, n, CH('0'), CH('1'));
+    observe(o, om);
 }
 Q q_ctor_sv_p()
 {
     CH* s = sym(SLEN); u64 pos = vf_nd_u64();
     STR_PRE(s, SLEN, pos, NPOS, CH('0'), CH('1'));
-    Obj o; o.p = raw(); k_new_sv_p(o.p, s, SLEN, pos); o.m.from_str<CH, SLEN>(s, SLEN, pos, NPOS, CH('0'), CH('1'));
-    observe(o);
+    NEW(o); k_new_sv_p(o, s, SLEN, pos); om.from_str<CH, SLEN>(s, SLEN, pos, NPOS, CH('0'), CH('1'));
+    observe(o, om);
 }
 Q q_ctor_sv_dflt()
 {
     CH* s = sym(SLEN);
     STR_PRE(s, SLEN, u64(0), NPOS, CH('0'), CH('1'));
-    Obj o; o.p = raw(); k_new_sv_dflt(o.p, s, SLEN); o.m.from_str<CH, SLEN>(s, SLEN, 0, NPOS, CH('0'), CH('1'));
-    observe(o);
+    NEW(o); k_new_sv_dflt(o, s, SLEN); om.from_str<CH, SLEN>(s, SLEN, 0, NPOS, CH('0'), CH('1'));
+    observe(o, om);
 }
 // (str, n, zero, one) with n != npos: exactly the first n characters are the string (they may contain NUL), n <= block length
 Q q_ctor_cs()
@@ -341,8 +340,8 @@ Q q_ctor_cs()
     CH* s = sym(SLEN); u64 n = vf_nd_u64(); CH zero = nd_ch(), one = nd_ch();
     vf_assume(n <= SLEN);
     STR_PRE(s, n, u64(0), n, zero, one);
-    Obj o; o.p = raw(); k_new_cs(o.p, s, n, zero, one); o.m.from_str<CH, SLEN>(s, n, 0, n, zero, one);
-    observe(o);
+    NEW(o); k_new_cs(o, s, n, zero, one); om.from_str<CH, SLEN>(s, n, 0, n, zero, one);
+    observe(o, om);
     if (n == SLEN) vf_witness("whole block used");
 }
 // (str, npos, zero, one): NUL-terminated
@@ -350,22 +349,22 @@ Q q_ctor_cs_npos()
 {
     CH* s = symz(SLEN); CH zero = nd_ch(), one = nd_ch();
     STR_PRE(s, SLEN, u64(0), NPOS, zero, one);
-    Obj o; o.p = raw(); k_new_cs(o.p, s, NPOS, zero, one); o.m.from_str<CH, SLEN>(s, SLEN, 0, NPOS, zero, one);
-    observe(o);
+    NEW(o); k_new_cs(o, s, NPOS, zero, one); om.from_str<CH, SLEN>(s, SLEN, 0, NPOS, zero, one);
+    observe(o, om);
 }
 Q q_ctor_cs_n()
 {
     CH* s = sym(SLEN); u64 n = vf_nd_u64();
     vf_assume(n <= SLEN);
     STR_PRE(s, n, u64(0), n, CH('0'), CH('1'));
-    Obj o; o.p = raw(); k_new_cs_n(o.p, s, n); o.m.from_str<CH, SLEN>(s, n, 0, n, CH('0'), CH('1'));
-    observe(o);
+    NEW(o); k_new_cs_n(o, s, n); om.from_str<CH, SLEN>(s, n, 0, n, CH('0'), CH('1'));
+    observe(o, om);
 }
 Q q_ctor_cs_dflt()
 {
     CH* s = symz(SLEN);
     STR_PRE(s, SLEN, u64(0), NPOS, CH('0'), CH('1'));
-    Obj o; o.p = raw(); k_new_cs_dflt(o.p, s); o.m.from_str<CH, SLEN>(s, SLEN, 0, NPOS, CH('0'), CH('1'));
-    observe(o);
+    NEW(o); k_new_cs_dflt(o, s); om.from_str<CH, SLEN>(s, SLEN, 0, NPOS, CH('0'), CH('1'));
+    observe(o, om);
 }
 #endif
